@@ -17,7 +17,7 @@ def run(tier, v):
     n = sum(o["cases"] for o in outs)
     present = sum(o["present"] for o in outs)
     v.count(n)
-    v.subspace("every message over {[,],r,e,f,:,blank,0,1,9,ARABIC-INDIC 3,x} of length <= %d as whole message, after `[ref: `, `[ref:`, `[ref`, "
+    v.subspace("every message over {[,],r,e,f,:,blank,0,1,9,ARABIC-INDIC 3,x,+} of length <= %d as whole message, after `[ref: `, `[ref:`, `[ref`, "
                "and before `[ref: 1] x`" % maxlen, n, exhaustive=True, messages_with_valid_token=present)
     v.coverage["distinct_nontrivial"] += present
     for o in outs:
@@ -54,7 +54,7 @@ def run(tier, v):
     # CLI binding: every message of length <= 3 (5 framings) as a file through --check and edit
     import itertools
     import clibind
-    S12 = ["[", "]", "r", "e", "f", ":", " ", "0", "1", "9", "\u0663", "x"]
+    S12 = ["[", "]", "r", "e", "f", ":", " ", "0", "1", "9", "\u0663", "x", "+"]
     msgs = set()
     for L in range(0, 4):
         for t in itertools.product(S12, repeat=L):
